@@ -24,7 +24,7 @@ Step(x) ==
   /\ Recv(x)
   /\ h' = Append(h, x)
   /\ PrintT(<<"VFT", ToJson([path |-> h, last |-> x, out |-> out', pre |-> Pre, st |-> St,
-                             det |-> (x.k = "valid" \/ x.cmd = "frame" \/ ~ver \/ (x.cmd = "version"))])>>)
+                             det |-> ((x.k = "valid" /\ ~(x.cmd \in Orphans /\ h1 # "no")) \/ x.cmd = "frame" \/ ~ver \/ (x.cmd = "version"))])>>)
 
 \* valid messages first: TLC generates the successors of a state in this order, so the retained (shortest)
 \* path to every session state consists of messages whose effect the model determines
